@@ -22,6 +22,7 @@ KindPool ==
   \cup (IF "tuple" \in KindSet THEN {[k |-> "tuple", fn |-> 0, slots |-> 0]} ELSE {})
   \cup (IF "dict" \in KindSet THEN {[k |-> "dict", fn |-> 0, slots |-> 0]} ELSE {})
   \cup (IF "ntuple" \in KindSet THEN {[k |-> "ntuple", fn |-> 0, slots |-> 2]} ELSE {})
+  \cup (IF "tagged" \in KindSet THEN {[k |-> "tagged", fn |-> 0, slots |-> 1]} ELSE {})
 
 Root == Len(heap)
 
